@@ -7,6 +7,7 @@ require (
 	github.com/pelletier/go-toml v1.9.5
 	github.com/spf13/pflag v1.0.5
 	github.com/vimeo/dials v0.0.0
+	golang.org/x/text v0.19.0
 	gopkg.in/yaml.v2 v2.4.0
 )
 
@@ -21,7 +22,6 @@ require (
 	github.com/stretchr/testify v1.9.0 // indirect
 	golang.org/x/net v0.30.0 // indirect
 	golang.org/x/sys v0.26.0 // indirect
-	golang.org/x/text v0.19.0 // indirect
 	gopkg.in/yaml.v3 v3.0.1 // indirect
 )
 
